@@ -9,6 +9,9 @@ the network and the receiver — induction over schedules of any length:
  * `admit_bound`: right after a message of size n is admitted the unacknowledged payload is at most
    max(W, W − ⌊W/2⌋ + n); `only_sender_debits`: nothing else ever increases it;
  * `ack_rule`: the receiver never sits on ⌊W/2⌋ or more consumed bytes;
+ * `outstanding_bounded`: the same bound as an invariant of every reachable state before the close;
+   `blocked_send_admitted`: from EVERY reachable state with a parked Send the fair schedule (deliver,
+   consume, acknowledge, wake, re-read, test) admits it — liveness, not only absence of deadlock;
  * `no_deadlock`: whenever the sender is blocked, a network/receiver step is enabled or the wake-up
    token is there; `quiescent_admits`: once everything in flight has been delivered, consumed and
    acknowledged the admission test succeeds for EVERY size, so under fair delivery (finitely many
@@ -330,6 +333,119 @@ theorem close_exempt (s s' : State) (n : Nat) (hb : Bound s) (hc : s.closed = fa
   · cases h; simp only; omega
   · cases h
 
+/-! ### liveness under fair delivery: a blocked Send IS admitted after finitely many steps -/
+
+theorem drain_wire (k : Nat) (s : State) (hk : s.wire.length ≤ k) :
+    (run s (List.replicate k .deliverData)).wire = [] ∧
+    (run s (List.replicate k .deliverData)).pc = s.pc ∧
+    (run s (List.replicate k .deliverData)).acks.length = s.acks.length ∧
+    (run s (List.replicate k .deliverData)).rq.length = s.rq.length + s.wire.length ∧
+    (run s (List.replicate k .deliverData)).admitted = s.admitted := by
+  induction k generalizing s with
+  | zero =>
+    have : s.wire = [] := List.length_eq_zero_iff.mp (by omega)
+    simp [run, this]
+  | succ k ih =>
+    simp only [List.replicate_succ, run, step]
+    cases hw : s.wire with
+    | nil => simp only; have := ih s (by simp [hw]); simpa [hw] using this
+    | cons n rest =>
+      simp only
+      have := ih { s with wire := rest, rq := s.rq ++ [n] } (by simp [hw] at hk ⊢; omega)
+      simp only [List.length_append, List.length_cons, List.length_nil] at this ⊢
+      refine ⟨this.1, this.2.1, this.2.2.1, ?_, this.2.2.2.2⟩
+      omega
+
+theorem drain_rq (k : Nat) (s : State) (hk : s.rq.length ≤ k) :
+    (run s (List.replicate k .consume)).rq = [] ∧
+    (run s (List.replicate k .consume)).wire = s.wire ∧
+    (run s (List.replicate k .consume)).pc = s.pc ∧
+    (run s (List.replicate k .consume)).acks.length ≤ s.acks.length + s.rq.length ∧
+    (run s (List.replicate k .consume)).admitted = s.admitted := by
+  induction k generalizing s with
+  | zero =>
+    have : s.rq = [] := List.length_eq_zero_iff.mp (by omega)
+    simp [run, this]
+  | succ k ih =>
+    simp only [List.replicate_succ, run]
+    cases hw : s.rq with
+    | nil =>
+      have hs : step s .consume = none := by simp [step, hw]
+      rw [hs]; simp only; have := ih s (by simp [hw]); simpa [hw] using this
+    | cons n rest =>
+      by_cases hlt : s.rb + n < s.W / 2
+      · have hs : step s .consume = some { s with rq := rest, rb := s.rb + n } := by simp [step, hw, hlt]
+        rw [hs]; simp only
+        have := ih { s with rq := rest, rb := s.rb + n } (by simp [hw] at hk ⊢; omega)
+        simp only [List.length_cons] at this ⊢
+        exact ⟨this.1, this.2.1, this.2.2.1, by omega, this.2.2.2.2⟩
+      · have hs : step s .consume = some { s with rq := rest, rb := 0, acks := s.acks ++ [s.rb + n] } := by
+          simp [step, hw, hlt]
+        rw [hs]; simp only
+        have := ih { s with rq := rest, rb := 0, acks := s.acks ++ [s.rb + n] } (by simp [hw] at hk ⊢; omega)
+        simp only [List.length_cons, List.length_append, List.length_nil] at this ⊢
+        exact ⟨this.1, this.2.1, this.2.2.1, by omega, this.2.2.2.2⟩
+
+theorem drain_acks (k : Nat) (s : State) (hk : s.acks.length ≤ k) :
+    (run s (List.replicate k .deliverWindow)).acks = [] ∧
+    (run s (List.replicate k .deliverWindow)).wire = s.wire ∧
+    (run s (List.replicate k .deliverWindow)).rq = s.rq ∧
+    (run s (List.replicate k .deliverWindow)).pc = s.pc ∧
+    (run s (List.replicate k .deliverWindow)).admitted = s.admitted := by
+  induction k generalizing s with
+  | zero =>
+    have : s.acks = [] := List.length_eq_zero_iff.mp (by omega)
+    simp [run, this]
+  | succ k ih =>
+    simp only [List.replicate_succ, run, step]
+    cases hw : s.acks with
+    | nil => simp only; have := ih s (by simp [hw]); simpa [hw] using this
+    | cons d rest =>
+      simp only
+      have := ih { s with acks := rest, win := s.win + d, slot := true } (by simp [hw] at hk ⊢; omega)
+      simpa using this
+
+theorem run_append (s : State) (as bs : List Action) : run s (as ++ bs) = run (run s as) bs := by
+  induction as generalizing s with
+  | nil => rfl
+  | cons a as ih => simp only [List.cons_append, run]; split <;> exact ih _
+
+/-- the fair environment schedule: deliver every data frame, consume every message, deliver every
+window update (steps that are not enabled are skipped by `run`), then the sender's own retry -/
+def fairSchedule (s : State) : List Action :=
+  List.replicate s.wire.length .deliverData ++
+  (List.replicate (s.rq.length + s.wire.length) .consume ++
+  (List.replicate (s.acks.length + s.rq.length + s.wire.length) .deliverWindow ++
+  [.wake, .load, .decide]))
+
+/-- C07, second sentence, as a theorem about EVERY reachable state: a Send of any size n that is parked
+is admitted by the fair schedule — the network delivers, the receiver consumes, the window updates
+arrive, the sender wakes, re-reads the window and passes the admission test. No window size, size
+sequence or earlier interleaving leaves both sides waiting. -/
+theorem blocked_send_admitted (s : State) (hi : Inv s) (n : Nat) (hw : s.pc = .waiting n) :
+    (run s (fairSchedule s)).pc = .idle ∧ (run s (fairSchedule s)).admitted = s.admitted ++ [n] := by
+  unfold fairSchedule
+  rw [run_append, run_append, run_append]
+  obtain ⟨a1, a2, a3, a4, a5⟩ := drain_wire s.wire.length s (Nat.le_refl _)
+  generalize hs1 : run s (List.replicate s.wire.length .deliverData) = s1 at *
+  obtain ⟨b1, b2, b3, b4, b5⟩ := drain_rq (s.rq.length + s.wire.length) s1 (by omega)
+  generalize hs2 : run s1 (List.replicate (s.rq.length + s.wire.length) .consume) = s2 at *
+  obtain ⟨c1, c2, c3, c4, c5⟩ := drain_acks (s.acks.length + s.rq.length + s.wire.length) s2 (by omega)
+  generalize hs3 : run s2 (List.replicate (s.acks.length + s.rq.length + s.wire.length) .deliverWindow) = s3 at *
+  have hi3 : Inv s3 := by
+    rw [← hs3, ← hs2, ← hs1]; exact inv_run _ (inv_run _ (inv_run _ hi _) _) _
+  have hpc : s3.pc = .waiting n := by rw [c4, b3, a2, hw]
+  have hwire : s3.wire = [] := by rw [c2, b2, a1]
+  have hrq : s3.rq = [] := by rw [c3, b1]
+  have hadm := quiescent_admits s3 hi3 hwire hrq c1
+  have hslot : s3.slot = true := by
+    rcases hi3.waiting_tok n hpc with h | h
+    · exact h
+    · rw [hadm n] at h; cases h
+  have hadm3 : s3.admitted = s.admitted := by rw [c5, b5, a5]
+  simp only [run, step, hpc, hslot, ↓reduceIte, hadm n, hadm3]
+  exact ⟨trivial, trivial⟩
+
 /-! ### non-vacuity and boundary instances -/
 
 /-- W = 1 (⌊W/2⌋ = 0): a second 1-byte message is still admitted (window 0 ≥ 0), the third blocks
@@ -344,5 +460,9 @@ example : (run (init 8) [.sendOpen 1, .send 100, .load, .decide]).admitted = [1,
 = 8 − 4 + 100; and the premise `closed = false` holds there -/
 example : let s := run (init 8) [.sendOpen 4, .send 100, .load, .decide]
     s.closed = false ∧ (s.W : Int) - s.win = 104 ∧ maxl s.admitted = 100 := by decide
+/-- `blocked_send_admitted` is not vacuous: the W = 1 state above is reachable, parked, and the fair
+schedule admits the third message -/
+example : let s := run (init 1) [.sendOpen 1, .send 1, .load, .decide, .send 1, .load, .decide]
+    s.pc = .waiting 1 ∧ (run s (fairSchedule s)).admitted = [1, 1, 1] := by decide
 
 end SpecVerif.C07
